@@ -12,8 +12,8 @@ from ginsim import cfgtext, probes, shrink, world
 
 ID = 'C04'
 LEVEL = 'exploration'
-QUICK_RUNS = 4000
-THOROUGH_RUNS = 80000
+QUICK_RUNS = 12000
+THOROUGH_RUNS = 300000
 SHRINK_BUDGET = 250
 RULE = ('run i draws from Random("<seed>/C04/<i>") 1-3 producers, 1-3 consumers '
         '(3 defaulted parameters each), bindings whose values are trees (depth '
